@@ -235,6 +235,7 @@ def special_structure_cases(rng, tier):
                 lv = g.range(1, 5); lu = lv + g.range(0, 5)
                 u = [gen_val(g, fam) for _ in range(lu)]
                 if u[-1] == 0: u[-1] = gen_lead(g, fam)
+                if rep % 2 == 0 and g.chance(1, 2): u[-1] = g.choice(menu)     # both leading coefficients special (Complex: both on an axis)
                 cases.append(mk_div(fam, u, valid_divisor(g, fam, lv, lead), "div-special-lead-" + fam, nontrivial=True))
         # ---- zero divisors with zeros of either sign
         if elt != 'rat':
@@ -248,10 +249,15 @@ def special_structure_cases(rng, tier):
                     v[-1] = -0.0 if elt == 'f64' else complex(-0.0, 0.0)
                 u = g.choice([[], [z] * g.range(1, 3), [gen_val(g, fam) for _ in range(g.range(1, 6))]])
                 cases.append(mk_div(fam, u, v, "zero-divisor-signed-" + fam, nontrivial=True))
+                if lv <= 4:    # dividend and divisor equal BY VALUE (as numbers: zeros of the other sign), both all-zero
+                    cases.append(mk_div(fam, [z] * lv, v, "zero-divisor-signed-" + fam, nontrivial=True))
             # (outside the claim, tie only) a negative zero as leading coefficient of a non-zero divisor
             v = valid_divisor(g, fam, g.range(2, 4)); v[-1] = -0.0 if elt == 'f64' else complex(-0.0, 0.0)
             if all(a == 0 for a in v): v[0] = gen_lead(g, fam)
             cases.append(mk_div(fam, [gen_val(g, fam) for _ in range(g.range(2, 6))], v, "zero-leading-" + fam, nontrivial=False))
+        else:
+            for lv in (1, 2, 3):
+                cases.append(mk_div(fam, [z] * lv, [z] * lv, "zero-divisor-equal-" + fam, nontrivial=True))
         # ---- structured dividends / divisors
         g = rng.fork("struct-" + fam)
         for cls in ("all-zero", "lead-zeros", "monomial", "neg-zeros", "all-equal"):
@@ -283,7 +289,9 @@ def special_structure_cases(rng, tier):
         E = lambda p: [exact('cplx', a) for a in p]
         U = ref_add(ref_mul(E(q0), E(v), zero_of('cplx')), E(r0))
         u = [complex(float(a.re), float(a.im)) for a in (cq(b) for b in U)]
-        a, b = (g.below(4), g.below(4)) if k % 2 == 0 else (0, 0)
+        # turns (a, b) of dividend and divisor: both on the imaginary axis, one on each axis, ... first, then at random
+        turns = [(1, 1), (0, 1), (1, 0), (3, 1), (2, 3), (3, 3), (1, 2)]
+        a, b = ((turns[k // 2] if k // 2 < len(turns) else (g.below(4), g.below(4))) if k % 2 == 0 else (0, 0))
         cases.append(mk_div('cplx', imul('cplx', u, a), imul('cplx', v, b), "div-rotated-cplx", nontrivial=True))
     return cases
 
